@@ -188,3 +188,73 @@ pub fn pause(point: &'static str) {
         ctl.arrive(role, point);
     }
 }
+
+// ===== thin wrappers around crate-private items =====
+
+/// Plain mirror of the replication range comparison result.
+#[derive(Debug, Clone, PartialEq, Eq)]
+pub enum RangeDiff {
+    Ok(std::collections::BTreeMap<uuid::Uuid, (Duration, Duration)>),
+    Refresh,
+    Unwilling,
+    Critical,
+    NoRuvOverlap,
+}
+
+/// `ReplicationUpdateVector::range_diff` over plain (min, max) windows.
+pub fn range_diff(
+    consumer: &std::collections::BTreeMap<uuid::Uuid, (Duration, Duration)>,
+    supplier: &std::collections::BTreeMap<uuid::Uuid, (Duration, Duration)>,
+) -> RangeDiff {
+    use crate::repl::proto::ReplCidRange;
+    use crate::repl::ruv::{RangeDiffStatus, ReplicationUpdateVector};
+    let conv = |m: &std::collections::BTreeMap<uuid::Uuid, (Duration, Duration)>| {
+        m.iter()
+            .map(|(k, (a, b))| {
+                (
+                    *k,
+                    ReplCidRange {
+                        ts_min: *a,
+                        ts_max: *b,
+                    },
+                )
+            })
+            .collect::<std::collections::BTreeMap<_, _>>()
+    };
+    match ReplicationUpdateVector::range_diff(&conv(consumer), &conv(supplier)) {
+        RangeDiffStatus::Ok(m) => RangeDiff::Ok(
+            m.into_iter()
+                .map(|(k, r)| (k, (r.ts_min, r.ts_max)))
+                .collect(),
+        ),
+        RangeDiffStatus::Refresh { .. } => RangeDiff::Refresh,
+        RangeDiffStatus::Unwilling { .. } => RangeDiff::Unwilling,
+        RangeDiffStatus::Critical { .. } => RangeDiff::Critical,
+        RangeDiffStatus::NoRUVOverlap => RangeDiff::NoRuvOverlap,
+    }
+}
+
+/// Public handle on the crate-private credential soft lock.
+pub struct SoftLock(crate::credential::softlock::CredSoftLock);
+
+impl SoftLock {
+    pub fn new(policy: crate::credential::softlock::CredSoftLockPolicy) -> Self {
+        SoftLock(crate::credential::softlock::CredSoftLock::new(policy))
+    }
+
+    pub fn apply_time_step(&mut self, ct: Duration, expire_at: Option<Duration>) {
+        self.0.apply_time_step(ct, expire_at)
+    }
+
+    pub fn is_valid(&self) -> bool {
+        self.0.is_valid()
+    }
+
+    pub fn record_failure(&mut self, ct: Duration) {
+        self.0.record_failure(ct)
+    }
+}
+
+// Hook modules that live inside crate-private modules are re-exported here.
+pub use crate::idm::accountpolicy::verif_hooks as accountpolicy;
+pub use crate::plugins::gidnumber::verif_hooks as gidnumber;
